@@ -265,6 +265,26 @@ func runC04(c *Ctx) {
 			checks = append(checks, ch)
 			jcs = append(jcs, J{"id": gc.ID, "level": gc.Level, "revs": jrevs})
 		}
+		// how the caller houses the revision lists is the caller's business: every third set keeps all revisions of all checks in
+		// one table and hands each check a window of it (spare capacity reaching into the next check's revisions), every third
+		// one hands out windows with clipped capacity, the rest keeps one array per check
+		if housing := i % 3; housing != 2 && len(checks) > 0 {
+			var flat []policy.VersionedCheck
+			for _, ch := range checks {
+				flat = append(flat, ch.Versions...)
+			}
+			at := 0
+			for k := range checks {
+				nk := len(checks[k].Versions)
+				if housing == 0 {
+					checks[k].Versions = flat[at : at+nk]
+				} else {
+					checks[k].Versions = flat[at : at+nk : at+nk]
+				}
+				at += nk
+			}
+			c.Tag(fmt.Sprintf("housing-%d", housing))
+		}
 		ev, err := policy.NewEvaluator(checks)
 		wf := wellFormedGo(cs)
 		c.Eval(1)
@@ -405,6 +425,20 @@ func genLabels(r *Rng) map[string]string {
 		l["pod-security.kubernetes.io/enforce2"] = "restricted"
 		l["pod-security.kubernetes.io/Enforce"] = "restricted"
 		l["pod-security.kubernetes.io/enforce-Version"] = "v1.1"
+	}
+	if r.Chance(1, 4) { // keys that only resemble the six: the bare names, other prefixes, other separators
+		for n := 1 + r.Intn(3); n > 0; n-- {
+			i := r.Intn(len(labelKeys))
+			bare := strings.TrimPrefix(labelKeys[i], "pod-security.kubernetes.io/")
+			k := pick(r, []string{bare, "/" + bare, "x/" + bare, "kubernetes.io/" + bare, "pod-security.kubernetes.io." + bare, "pod-security.kubernetes.io//" + bare,
+				"Pod-Security.kubernetes.io/" + bare, "pod-security.kubernetes.io/" + bare + "/", "pod-security.kubernetes.io/" + bare + " ", "pod-security.k8s.io/" + bare,
+				"security.kubernetes.io/" + bare, "pod-security.kubernetes.io/pod-security.kubernetes.io/" + bare})
+			if i%2 == 0 {
+				l[k] = pick(r, append(append([]string{}, validLevels...), malformedLevels...))
+			} else {
+				l[k] = pick(r, append(append([]string{}, validVersions[:8]...), malformedVersions[:8]...))
+			}
+		}
 	}
 	for i, k := range labelKeys {
 		if r.Chance(2, 5) {
